@@ -710,6 +710,40 @@ def _check_bounds_on_runtime_integer_expressions(
     errors += _integer_bounds_errors_for_expression(expression, source_file_name)
 
 
+def _check_bounds_on_end_of_field(field, source_file_name, errors):
+    """Checks that `start + size` of a physical field fits in a 64-bit integer.
+
+    The end of every physical field is computed at runtime as part of the
+    synthesized `$size_in_bits`/`$size_in_bytes` field.  Checking it here lets an
+    out-of-range end be reported at the field's own location, instead of at the
+    (synthetic) location of the generated expression.
+    """
+    if ir_util.field_is_virtual(field):
+        return
+    bounds = []
+    for expression in (field.location.start, field.location.size):
+        if expression.type.which_type != "integer":
+            return
+        for value in (
+            expression.type.integer.minimum_value,
+            expression.type.integer.maximum_value,
+        ):
+            if not value or value in ("-infinity", "infinity"):
+                # Unbounded starts and sizes are reported on the expression itself.
+                return
+            bounds.append(int(value))
+    end_of_field = ir_data.IntegerType(
+        minimum_value=str(bounds[0] + bounds[2]),
+        maximum_value=str(bounds[1] + bounds[3]),
+    )
+    errors += _integer_bounds_errors(
+        end_of_field,
+        "end (start + size) of field",
+        source_file_name,
+        field.location.source_location,
+    )
+
+
 def _attribute_in_attribute_action(a):
     return {"in_attribute": a}
 
@@ -817,6 +851,12 @@ def check_constraints(ir):
         incidental_actions={ir_data.Attribute: _attribute_in_attribute_action},
         skip_descendants_of={ir_data.EnumValue, ir_data.Expression},
         parameters={"errors": errors, "in_attribute": None},
+    )
+    traverse_ir.fast_traverse_ir_top_down(
+        ir,
+        [ir_data.Field],
+        _check_bounds_on_end_of_field,
+        parameters={"errors": errors},
     )
     traverse_ir.fast_traverse_ir_top_down(
         ir,
